@@ -33,6 +33,20 @@ def operand_pair(eng, D, st, me, other):
     return None, None, "conversion target is not the other operand's scale"
 
 
+def direction_problem(eng, st, me, other, how):
+    """UTC is the one scale with leap seconds: UTC -> X is exact (C06) and one-to-one, X -> UTC is neither (two instants a second
+    apart share a UTC count at each leap second, and the library's TAI -> UTC is off in the seconds before it: C06.R4).  A
+    comparison between a UTC epoch and a leap-free one must therefore be made in the leap-free scale.  -> None or a reason."""
+    s1, s2 = scale_name(eng, st, me.fs[1]), scale_name(eng, st, other.fs[1])
+    if how == "other->self.scale":
+        if s1 in (None, "UTC") and s2 != "UTC":
+            return "the right operand (%s) is converted into the left one's scale (%s), which may be UTC" % (s2 or "any scale", s1 or "any scale")
+    elif how == "self->other.scale":
+        if s2 in (None, "UTC") and s1 != "UTC":
+            return "the left operand (%s) is converted into the right one's scale (%s), which may be UTC" % (s1 or "any scale", s2 or "any scale")
+    return None
+
+
 def run(chk, F, tier):
     eng, D = ctx(F)
     A = EpochAlg(F, eng, D)
@@ -55,6 +69,8 @@ def run(chk, F, tier):
         if X is None:
             chk.ob(rule1, "<Epoch as PartialEq>::eq", "same-domain-operands", False, detail={"why": how, "path": describe_path(eng, st)})
             continue
+        dp = direction_problem(eng, st, me, other, how)
+        chk.ob("C12.R5", "<Epoch as PartialEq>::eq", "compared-in-the-leap-free-scale[%s]" % how, dp is None, "E5 scale-domain (direction of the conversion)", detail=dp)
         key = (rule1, "same-domain-operands[%s]" % how)
         agg.setdefault(key, [0, 0, None])
         agg[key][0] += 1
@@ -105,6 +121,8 @@ def run(chk, F, tier):
                 chk.ob(rule1, inst, "same-domain-operands", False, detail={"why": how, "path": describe_path(eng, st)})
                 continue
             chk.ob(rule1, inst, "same-domain-operands[%s]" % how, True, "E5 scale-domain")
+            dp = direction_problem(eng, st, me, other, how)
+            chk.ob("C12.R5", inst, "compared-in-the-leap-free-scale[%s]" % how, dp is None, "E5 scale-domain (direction of the conversion)", detail=dp)
             v = st.ret
             if wrap:
                 if isinstance(v, Enum) and ordering_name(eng, v) == "Some":
